@@ -462,4 +462,265 @@ theorem run_ok (W : World) : ∀ (ops : List Op) (s : State), StateOk W s → St
   | [], _, h => h
   | op :: ops, s, h => run_ok W ops _ (step_ok W s op h)
 
+/-! ### shared tables only grow -/
+
+/-- `t'` extends `t`: same encoding tables, every cache entry of `t` still present in `t'` -/
+def TLe (t t' : Tables) : Prop :=
+  t'.enc = t.enc ∧ (∀ e, e ∈ t.cmaps → e ∈ t'.cmaps) ∧ (∀ e, e ∈ t.umaps → e ∈ t'.umaps)
+
+theorem TLe.refl (t : Tables) : TLe t t := ⟨rfl, fun _ h => h, fun _ h => h⟩
+
+theorem TLe.trans {a b c : Tables} (h1 : TLe a b) (h2 : TLe b c) : TLe a c :=
+  ⟨h2.1.trans h1.1, fun e h => h2.2.1 e (h1.2.1 e h), fun e h => h2.2.2 e (h1.2.2 e h)⟩
+
+theorem memo_grows {α : Type} (store : Bool) (fresh : Nat → Option α) (c : List (Nat × α)) (k : Nat) :
+    ∀ e, e ∈ c → e ∈ (memo store fresh c k).2 := by
+  intro e he
+  unfold memo
+  split
+  · exact he
+  · split
+    · exact he
+    · cases store
+      · exact he
+      · exact List.mem_cons_of_mem _ he
+
+theorem getCMap_le (W : World) (t : Tables) (n : Nat) : TLe t (getCMap W t n).2 :=
+  ⟨rfl, memo_grows true W.loadCMap t.cmaps n, fun _ h => h⟩
+
+theorem getUMap_le (W : World) (t : Tables) (n : Nat) : TLe t (getUMap W t n).2 :=
+  ⟨rfl, fun _ h => h, memo_grows true W.loadUMap t.umaps n⟩
+
+theorem useCMapEffect_le (W : World) (t : Tables) (spec : FontSpec) : TLe t (useCMapEffect W t spec) := by
+  unfold useCMapEffect
+  split
+  · exact getCMap_le W t _
+  · exact TLe.refl t
+
+theorem buildFont_le (W : World) (t : Tables) (spec : FontSpec) (src : List (Option Nat)) :
+    TLe t (buildFont W t spec src).2 := by
+  have h1 := useCMapEffect_le W t spec
+  have h2 := getCMap_le W (useCMapEffect W t spec) spec.cmap
+  have h3 := getUMap_le W (getCMap W (useCMapEffect W t spec) spec.cmap).2 spec.umap
+  unfold buildFont
+  by_cases k0 : spec.kind = 0
+  · simp only [k0, if_true]; exact h1
+  · by_cases k1 : spec.kind = 1
+    · simp only [k0, k1, if_true, if_false]; exact h1
+    · by_cases ht : spec.hasToUnicode = true
+      · simp only [k0, k1, ht, if_true, if_false]; exact h1.trans h2
+      · have ht' : spec.hasToUnicode = false := by simpa using ht
+        simp only [k0, k1, ht', if_false, Bool.false_eq_true]
+        exact (h1.trans h2).trans h3
+
+theorem getFont_le (W : World) (d : DocSpec) (caching : Bool) (c : Caches) (t : Tables) (r : FontRef) :
+    TLe t (getFont W d caching c t r).2.2 := by
+  cases r with
+  | direct spec => simp only [getFont]; exact buildFont_le W t spec _
+  | byId n =>
+    simp only [getFont]
+    split
+    · exact TLe.refl t
+    · split
+      · exact TLe.refl t
+      · exact buildFont_le W t _ _
+
+theorem getFonts_le (W : World) (d : DocSpec) (caching : Bool) : ∀ (rs : List FontRef) (c : Caches) (t : Tables),
+    TLe t (getFonts W d caching c t rs).2.2
+  | [], _, t => TLe.refl t
+  | r :: rs, c, t => by
+    simp only [getFonts]
+    exact (getFont_le W d caching c t r).trans (getFonts_le W d caching rs _ _)
+
+theorem advance_le (W : World) (h : Handle) (t : Tables) : TLe t (advance W h t).2.2 := by
+  unfold advance
+  split
+  · exact TLe.refl t
+  · split
+    · exact TLe.refl t
+    · simp only [processPage]; exact getFonts_le W _ _ _ _ _
+
+theorem drain_le (W : World) : ∀ (fuel : Nat) (h : Handle) (t : Tables), TLe t (drain W fuel h t).2.2
+  | 0, _, t => TLe.refl t
+  | fuel + 1, h, t => by
+    simp only [drain]
+    split
+    · exact (advance_le W h t).trans (drain_le W fuel _ _)
+    · exact advance_le W h t
+
+theorem step_le (W : World) (s : State) (op : Op) : TLe s.tables (step W s op).1.tables := by
+  cases op with
+  | «open» hid d caching sel => exact TLe.refl _
+  | next hid =>
+    simp only [step]
+    split
+    · exact TLe.refl _
+    · exact advance_le W _ _
+  | close hid => exact TLe.refl _
+  | extract d caching sel => simp only [step, extract]; exact drain_le W _ _ _
+  | parseCMap name ext => exact getCMap_le W _ _
+
+theorem run_le (W : World) : ∀ (ops : List Op) (s : State), TLe s.tables (run W s ops).tables
+  | [], s => TLe.refl _
+  | op :: ops, s => (step_le W s op).trans (run_le W ops _)
+
+theorem run_append (W : World) : ∀ (a b : List Op) (s : State), run W s (a ++ b) = run W (run W s a) b
+  | [], _, _ => rfl
+  | _ :: a, b, s => run_append W a b _
+
+/-! ### what a handle becomes does not depend on the state of the shared tables -/
+
+theorem getFont_indep (W : World) (d : DocSpec) (caching : Bool) (c : Caches) (t t' : Tables) (r : FontRef)
+    (ht : TablesOk W t) (ht' : TablesOk W t') :
+    (getFont W d caching c t r).1 = (getFont W d caching c t' r).1 ∧
+    (getFont W d caching c t r).2.1 = (getFont W d caching c t' r).2.1 := by
+  cases r with
+  | direct spec =>
+    simp only [getFont]
+    rw [(buildFont_spec W t spec _ ht).1, (buildFont_spec W t' spec _ ht').1]
+    refine ⟨?_, ?_⟩ <;> first | rfl | trivial
+  | byId n =>
+    simp only [getFont]
+    split
+    · exact ⟨rfl, rfl⟩
+    · split
+      · exact ⟨rfl, rfl⟩
+      · next spec _ =>
+        simp only []
+        rw [(buildFont_spec W t spec _ ht).1, (buildFont_spec W t' spec _ ht').1]
+        refine ⟨?_, ?_⟩ <;> first | rfl | trivial
+
+theorem getFonts_indep (W : World) (d : DocSpec) (caching : Bool) : ∀ (rs : List FontRef) (c : Caches) (t t' : Tables),
+    CachesOk W d c → TablesOk W t → TablesOk W t' →
+    (getFonts W d caching c t rs).1 = (getFonts W d caching c t' rs).1 ∧
+    (getFonts W d caching c t rs).2.1 = (getFonts W d caching c t' rs).2.1
+  | [], _, _, _, _, _, _ => ⟨rfl, rfl⟩
+  | r :: rs, c, t, t', hc, ht, ht' => by
+    obtain ⟨e1, e2⟩ := getFont_indep W d caching c t t' r ht ht'
+    obtain ⟨_, g2, g3⟩ := getFont_spec W d caching c t r hc ht
+    obtain ⟨_, _, g3'⟩ := getFont_spec W d caching c t' r hc ht'
+    simp only [getFonts]
+    rw [← e2]
+    obtain ⟨i1, i2⟩ := getFonts_indep W d caching rs _ _ _ g2 g3 g3'
+    exact ⟨by rw [e1, i1], i2⟩
+
+theorem advance_indep (W : World) (h : Handle) (t t' : Tables) (hh : HandleOk W h)
+    (ht : TablesOk W t) (ht' : TablesOk W t') :
+    (advance W h t).1 = (advance W h t').1 ∧ (advance W h t).2.1 = (advance W h t').2.1 := by
+  refine ⟨by rw [(advance_spec W h t hh ht).1, (advance_spec W h t' hh ht').1], ?_⟩
+  cases htodo : h.todo with
+  | nil => simp only [advance, htodo]
+  | cons k rest =>
+    cases hpg : h.doc.pages[k]? with
+    | none => simp only [advance, htodo, hpg]
+    | some pg =>
+      have hw := walkRange_ok W h.doc h.caching h.c h.pos k hh.1
+      obtain ⟨_, w2, _⟩ := readMany_spec W h.doc h.caching pg.walk _ hw
+      have := (getFonts_indep W h.doc h.caching pg.fonts _ t t' w2 ht ht').2
+      simp only [advance, htodo, hpg, processPage]
+      rw [this]
+
+theorem alookup_filter_self {α : Type} (k : Nat) : ∀ (l : List (Nat × α)),
+    alookup k (l.filter (fun e => e.1 != k)) = none
+  | [] => rfl
+  | (k', v) :: rest => by
+    simp only [List.filter_cons]
+    split
+    · next hb =>
+      have : k' ≠ k := by simpa using hb
+      simp [alookup, this, alookup_filter_self k rest]
+    · exact alookup_filter_self k rest
+
+theorem alookup_filter_ne {α : Type} {k k' : Nat} (hne : k' ≠ k) : ∀ (l : List (Nat × α)),
+    alookup k' (l.filter (fun e => e.1 != k)) = alookup k' l
+  | [] => rfl
+  | (k'', v) :: rest => by
+    simp only [List.filter_cons]
+    split
+    · by_cases h2 : k'' = k'
+      · simp [alookup, h2]
+      · simp [alookup, h2, alookup_filter_ne hne rest]
+    · next hb =>
+      have hk : k'' = k := by simpa using hb
+      have : ¬ k'' = k' := by omega
+      simp [alookup, this, alookup_filter_ne hne rest]
+
+/-! ### interleaving: an iterator's outputs depend on its own operations only -/
+
+/-- does the operation address page iterator `hid`? -/
+def mentions (hid : Nat) : Op → Bool
+  | .open h _ _ _ => h == hid
+  | .next h => h == hid
+  | .close h => h == hid
+  | _ => false
+
+/-- the outputs of the operations of a history that address iterator `hid` -/
+def outputsOf (W : World) (hid : Nat) : State → List Op → List Out
+  | _, [] => []
+  | s, op :: ops =>
+    if mentions hid op then (step W s op).2 :: outputsOf W hid (step W s op).1 ops
+    else outputsOf W hid (step W s op).1 ops
+
+theorem step_frame (W : World) (s : State) (hid : Nat) (op : Op) (hm : mentions hid op = false) :
+    alookup hid (step W s op).1.handles = alookup hid s.handles := by
+  cases op with
+  | «open» h d caching sel =>
+    have : hid ≠ h := by intro e; simp [mentions, e] at hm
+    exact alookup_aset_ne _ this _
+  | next h =>
+    have : hid ≠ h := by intro e; simp [mentions, e] at hm
+    simp only [step]
+    split
+    · rfl
+    · exact alookup_aset_ne _ this _
+  | close h =>
+    have : hid ≠ h := by intro e; simp [mentions, e] at hm
+    exact alookup_filter_ne this _
+  | extract d caching sel => rfl
+  | parseCMap name ext => rfl
+
+theorem step_same (W : World) (s s' : State) (hid : Nat) (op : Op) (hm : mentions hid op = true)
+    (hs : StateOk W s) (hs' : StateOk W s') (he : alookup hid s.handles = alookup hid s'.handles) :
+    (step W s op).2 = (step W s' op).2 ∧
+    alookup hid (step W s op).1.handles = alookup hid (step W s' op).1.handles := by
+  cases op with
+  | «open» h d caching sel =>
+    have : h = hid := by simpa [mentions] using hm
+    subst this
+    exact ⟨rfl, by simp only [step]; rw [alookup_aset_self, alookup_aset_self]⟩
+  | next h =>
+    have : h = hid := by simpa [mentions] using hm
+    subst this
+    simp only [step]
+    cases hl : alookup h s.handles with
+    | none =>
+      rw [← he, hl]
+      exact ⟨rfl, by simp only []; rw [← he, hl]⟩
+    | some hd =>
+      rw [← he, hl]
+      have hh := hs.2 h hd (alookup_mem hl)
+      obtain ⟨e1, e2⟩ := advance_indep W hd s.tables s'.tables hh hs.1 hs'.1
+      simp only []
+      exact ⟨e1, by rw [alookup_aset_self, alookup_aset_self, e2]⟩
+  | close h =>
+    have : h = hid := by simpa [mentions] using hm
+    subst this
+    exact ⟨rfl, by simp only [step]; rw [alookup_filter_self, alookup_filter_self]⟩
+  | extract d caching sel => simp [mentions] at hm
+  | parseCMap name ext => simp [mentions] at hm
+
+theorem interleaving_aux (W : World) (hid : Nat) : ∀ (ops : List Op) (s s' : State),
+    StateOk W s → StateOk W s' → alookup hid s.handles = alookup hid s'.handles →
+    outputsOf W hid s ops = outputs W s' (ops.filter (mentions hid))
+  | [], _, _, _, _, _ => rfl
+  | op :: ops, s, s', hs, hs', he => by
+    cases hm : mentions hid op with
+    | false =>
+      simp only [outputsOf, hm, List.filter_cons, Bool.false_eq_true, if_false]
+      exact interleaving_aux W hid ops _ s' (step_ok W s op hs) hs' ((step_frame W s hid op hm).trans he)
+    | true =>
+      obtain ⟨e1, e2⟩ := step_same W s s' hid op hm hs hs' he
+      simp only [outputsOf, hm, List.filter_cons, if_true, outputs]
+      rw [e1, interleaving_aux W hid ops _ _ (step_ok W s op hs) (step_ok W s' op hs') e2]
+
 end PdfVerif.Process
